@@ -542,7 +542,7 @@ func corpus(out *gal.Out) {
 func main() {
 	seed := flag.Uint64("seed", 1, "PRNG seed")
 	prefix := flag.String("out", "c06", "output prefix")
-	mode := flag.String("mode", "random", "corpus|random|replay")
+	mode := flag.String("mode", "random", "corpus|random|sweep|replay")
 	n := flag.Int("n", 100, "number of cases")
 	in := flag.String("in", "", "replay: JSON file with a list of {roots, foreign, ops}")
 	flag.Parse()
@@ -552,6 +552,28 @@ func main() {
 	switch *mode {
 	case "corpus":
 		corpus(out)
+	case "sweep":
+		// every ordered pair of the 19 methods as a two-step chain from each kind of factory
+		// (n of: FactoryOf base, bare base, generated ExtA, generated ExtB with hand-written Convert)
+		kinds := []rootDesc{{Kind: "base", Name: "F", IsFac: true}, {Kind: "exta", Name: "X", IsFac: true},
+			{Kind: "base", Name: "B"}, {Kind: "extb", Name: "Y", IsFac: true}}
+		fs := []foreignDesc{{Kind: "new", Text: "one"}, {Kind: "slice", Text: "a"}, {Kind: "val", Text: "v"}}
+		for ki := 0; ki < *n && ki < len(kinds); ki++ {
+			roots := []rootDesc{kinds[ki], {Kind: "base", Name: "Other", IsFac: true}}
+			for i, m1 := range methodNames {
+				for j, m2 := range methodNames {
+					o1 := opDesc{Recv: ref{"cell", 0}, M: m1, Src: "s", DTag: "t", Fmt: "f", Err: ref{"foreign", i % 3}}
+					o2 := opDesc{Recv: ref{"cell", 2}, M: m2, Src: "s", DTag: "t", Fmt: "f", Err: ref{"foreign", (i + j + 1) % 3}}
+					if m1 != "Convert" && m1 != "ConvertS" {
+						o1.Err = ref{"nil", 0}
+					}
+					if m2 != "Convert" && m2 != "ConvertS" {
+						o2.Err = ref{"nil", 0}
+					}
+					emit(out, "sweep", roots, fs, []opDesc{o1, o2})
+				}
+			}
+		}
 	case "replay":
 		b, err := os.ReadFile(*in)
 		if err != nil {
